@@ -94,6 +94,15 @@ pub fn run(a: &Args) {
             }
         }
     }
+    // frames a little above 32 / 64 / 128 KiB of highly compressible data: the last rows of a frame are released only with the flush at the
+    // chunk behind the frame's data (the frame has then to be counted all the same, and end-of-image reported after the last one)
+    for (w, producer, nframes) in [(63u32, 0u8, 2u32), (63, 1, 3), (31, 0, 3), (15, 2, 2), (127, 0, 2)] {
+        for h in crate::gen::heights_just_above_buffer_sizes(w as usize + 1, if thorough { 8 } else { 4 }) {
+            let b = crate::gen::held_back_tail_file(w, h, nframes, producer, &[], &[]);
+            o.count("held-back-tails");
+            check_apng(&mut o, &b, &mut rng);
+        }
+    }
     o.mark("done");
     o.finish();
 }
